@@ -189,6 +189,14 @@ shim_entropy_replaced(void)
 
 /* Scripted kernel for /dev/urandom. */
 static const struct shim_os_cb * os_cb;
+static int fake_fd = SHIM_FAKE_FD;	/* the number open("/dev/urandom") returns; 0 is a legitimate one (stdin closed) */
+
+void
+shim_os_set_fd(int fd)
+{
+
+	fake_fd = fd;
+}
 
 void
 shim_os_arm(const struct shim_os_cb * cb)
@@ -221,7 +229,7 @@ ssize_t
 __wrap_read(int fd, void * buf, size_t count)
 {
 
-	if ((os_cb != NULL) && (fd == SHIM_FAKE_FD))
+	if ((os_cb != NULL) && (fd == fake_fd))
 		return (os_cb->read_cb(fd, buf, count));
 	return (__real_read(fd, buf, count));
 }
@@ -230,7 +238,24 @@ int
 __wrap_close(int fd)
 {
 
-	if ((os_cb != NULL) && (fd == SHIM_FAKE_FD))
+	if ((os_cb != NULL) && (fd == fake_fd))
 		return (os_cb->close_cb(fd));
 	return (__real_close(fd));
+}
+
+/*
+ * The wall clock (ld --wrap=time).  HMAC_DRBG reseeds by count, not by age; a
+ * generator which looks at the clock sees hours pass between any two readings.
+ */
+#include <time.h>
+static time_t fake_now = 1700000000;
+
+time_t
+__wrap_time(time_t * tloc)
+{
+
+	fake_now += 5000;
+	if (tloc != NULL)
+		*tloc = fake_now;
+	return (fake_now);
 }
